@@ -191,7 +191,8 @@ func readImport(r Reader, cat Catalog) (SharedSymbolTable, error) {
 
 // ReadSymbols reads the symbols from a symbol table.
 func readSymbols(r Reader) ([]string, error) {
-	if r.Type() != ListType {
+	if r.Type() != ListType || r.IsNull() {
+		// Anything but a non-null list (null.list included) is treated as an empty list.
 		return nil, nil
 	}
 	if err := r.StepIn(); err != nil {
